@@ -438,11 +438,11 @@ func c18Term(p *Prog, rp *Report, fns []*ssa.Function, cursorFns map[*ssa.Functi
 		}
 	}
 	allowedRec := map[string]string{
-		"control.decodeStruct":          "descends one level of pointer / struct nesting per call (finite type depth)",
-		"control.decodeStructValue":     "descends slice element / struct nesting of the target type",
+		"control.decodeStruct":           "descends one level of pointer / struct nesting per call (finite type depth)",
+		"control.decodeStructValue":      "descends slice element / struct nesting of the target type",
 		"control.decodeStructValueSlice": "via decodeStructValue on the element type",
-		"control.decode":                "via decodeSlice / decodeStruct on the target type",
-		"(*dependency.Arch).Is":         "swaps operands once: the recursive call has a non-wildcard receiver",
+		"control.decode":                 "via decodeSlice / decodeStruct on the target type",
+		"(*dependency.Arch).Is":          "swaps operands once: the recursive call has a non-wildcard receiver",
 	}
 	for name := range rec {
 		if reason, ok := allowedRec[name]; ok {
@@ -833,7 +833,6 @@ func isZeroValue(v ssa.Value) bool {
 	return false
 }
 
-
 // resolveSpillAt: for `*cell` loaded for a return, the value last stored to
 // the cell in the return's block (or the only store at all).
 func resolveSpillAt(v ssa.Value, ret *ssa.Return) ssa.Value {
@@ -901,7 +900,6 @@ func xorOK(p *Prog, fn *ssa.Function, depth int) bool {
 	}
 	return true
 }
-
 
 // storeBetween: is there a store to the address rendered as addrTerm in a block
 // that lies on a path from `from` to `to`? (A load term such as p0.Version does
